@@ -21,6 +21,7 @@ pub struct C01;
 pub fn profile(tier: Tier) -> Profile {
     let mut p = Profile::base(if tier == Tier::Quick { 40 } else { 120 });
     p.with_alt = true;
+    p.big_batches = true;
     p.huge_payload = tier == Tier::Thorough;
     p.big_read_buf = tier == Tier::Thorough;
     p
@@ -111,6 +112,18 @@ impl Prop for C01 {
     }
     fn strategy(&self, tier: Tier) -> BoxedStrategy<Case> {
         case_strategy(&profile(tier))
+    }
+    fn extra(&self, ctx: &Ctx, shard: usize, rep: &mut crate::runner::ShardReport) {
+        // thorough tier: coverage-guided stateful campaign (cargo-fuzz target hist_model: bytes ->
+        // configuration + history incl. clean restarts, same model oracle in-target)
+        if shard != 0 || ctx.tier != Tier::Thorough {
+            return;
+        }
+        let runs = std::env::var("RLV_FUZZ_HIST_RUNS").ok().and_then(|s| s.parse::<u64>().ok()).unwrap_or(150_000);
+        let seeds: Vec<std::path::PathBuf> = std::fs::read_dir("/verif/fuzz/corpus/hist_model").map(|rd| rd.flatten().map(|e| e.path()).collect()).unwrap_or_default();
+        crate::fuzzrun::campaign("hist_model", ctx.seed, runs, 300, &seeds, rep, &|d: &[u8]| {
+            Fail::new("fuzz-hist-model", format!("the cargo-fuzz target hist_model (store vs reference model in lock-step) failed on a {}-byte input", d.len()))
+        });
     }
     fn run_case(&self, case: &Case, _ctx: &Ctx) -> Result<CaseInfo, Fail> {
         let mut info = CaseInfo::default();
